@@ -366,7 +366,7 @@ def check_cache_and_traversal(ctx: Ctx) -> None:
         got[coupl_of.get(holder)] = dotted(c.func.value.slice)
     ctx.ob("9.5-slots", cong, got == {0: "outputs_dest_edge_index", 1: "inputs_source_edge_index"}, f"the edge origin receives the shared names in its outputs slot and the edge destination in its inputs slot; found {got}", node=ext[0], stmt="edge[0] -> outputs slot, edge[1] -> inputs slot")
     m = ctx.index.func(CR, "_merge_diff_ios")
-    inter = [s for s in stmts_of(m) if isinstance(s, ast.Assign) and isinstance(s.value, ast.Call) and last_attr(s.value) == "intersection"]
+    inter = [s for s in stmts_of(m) if isinstance(s, ast.Assign) and ((isinstance(s.value, ast.Call) and last_attr(s.value) == "intersection") or (isinstance(s.value, ast.BinOp) and isinstance(s.value.op, ast.BitAnd)))]
     ok = len(inter) == 2
     for s in inter:
         idx = [const_value(x.slice) for x in ast.walk(s.value) if isinstance(x, ast.Subscript) and isinstance(x.slice, ast.Constant)]
@@ -388,7 +388,10 @@ def check_cache_and_traversal(ctx: Ctx) -> None:
     for mname, attr in (("add_differentiated_inputs", "_differentiated_input_names"), ("add_differentiated_outputs", "_differentiated_output_names")):
         a = ctx.index.method(DI, "Discipline", mname)
         asg_ = rules.assigns_to_self(a, attr)
-        ok = len(asg_) == 1 and any(isinstance(c, ast.Call) and last_attr(c) == "union" and any(isinstance(x, ast.Attribute) and x.attr == attr for x in ast.walk(c.func)) for c in ast.walk(asg_[0].value))
+        ok = len(asg_) == 1 and (
+            any(isinstance(c, ast.Call) and last_attr(c) == "union" and any(isinstance(x, ast.Attribute) and x.attr == attr for x in ast.walk(c.func)) for c in ast.walk(asg_[0].value))
+            or any(isinstance(c, ast.BinOp) and isinstance(c.op, ast.BitOr) and any(isinstance(x, ast.Attribute) and x.attr == attr for side in (c.left, c.right) for x in ast.walk(side)) for c in ast.walk(asg_[0].value))
+        )
         ctx.ob("9.6-monotone", cname(DI, "Discipline", mname), ok, f"{mname} must extend {attr} with the union of the old names and the new ones: a later, smaller request must not drop blocks requested before", node=(asg_ or [a])[0])
 
 
